@@ -35,15 +35,25 @@ def request_jobs(tier):
     return js
 
 
+from props import C20 as _c20
+
+
+def write_jobs(tier):
+    return [{"id": f"O5.write-denied.branchable{b}", "func": "VerifH_C10_WriteDenied", "conf": {"branchable": b, "faults": 0, "dag": "", "orders": "all", "shortid": 0, "for": "C10"},
+             "_obligation": "O5", "_covers": ["attempted"], "unwind": 80} for b in ((0,) if tier == "quick" else (0, 1))]
+
+
 PROPERTY = {
     "id": "C10",
     "suites": [{"name": "permissioned", "pkg": "internal/db/fetcher", "files": ["zz_verif_c03.go", "zz_verif_c07.go", "zz_verif_c10.go"],
                 "common": ["intrinsics", "kvmodel", "dagenv"], "jobs": jobs, "unwind": 30,
                 "overrides": {"github.com/sourcenetwork/defradb/client.CborNil": "bytes:f6"}},
-               dict(_c09.PROPERTY["suites"][0], name="request", files=["zz_verif_query.go", "zz_verif_c10q.go"], jobs=request_jobs)],
-    "bounds": {"request level (O4)": "2 users, 2 devices, one user or one device unreadable; ages / years / filter constant in a small range; eight request shapes; index sets none and all (thorough: every combination); twin store = the same store without the unreadable document",
+               dict(_c09.PROPERTY["suites"][0], name="request", files=["zz_verif_query.go", "zz_verif_c10q.go"], jobs=request_jobs),
+               dict(_c20.SAVE_SUITE, name="writeapi", jobs=write_jobs, redirects=_c20.API_REDIR, files=_c20.SAVE_FILES + ["zz_verif_c20api.go", "zz_verif_c10api.go"], common=["intrinsics", "kvmodel", "dagenv", "kvtxn"])],
+    "bounds": {"write side (O5)": "one private document of a 2-field collection, created (and optionally updated) by its owner; one attempt (update / delete / create of the same content) by an identified requester without relationship or by an anonymous one; plain collection (thorough: branchable too)",
+               "request level (O4)": "2 users, 2 devices, one user or one device unreadable; ages / years / filter constant in a small range; eight request shapes; index sets none and all (thorough: every combination); twin store = the same store without the unreadable document",
                "stack (O3)": "the real wrappingFetcher Init/Start/FetchNext over 2 (thorough 3) documents in the key-value model, each active or deleted, showDeleted on or off", "documents in the scan": "2-3 (thorough 4)", "per document": "registered / allowed / IsDocRegistered error / CheckDocAccess error all symbolic", "policy": "present or absent", "identity": "none or present"},
     "assumptions": ["the ACP system is a symbolic table (the real local/source-hub ACP is not executed)", "the inner fetcher yields the scan's document ids in order"],
-    "outside_claim": ["commit-history queries (dagScanNode), time travel, subscriptions, update/delete checks in collection.go, grouping and aggregates other than _count",
+    "outside_claim": ["commit-history queries (dagScanNode), time travel, subscriptions, filtered update / delete (UpdateWithFilter, DeleteWithFilter), grouping and aggregates other than _count, grant / revoke through the real ACP engine",
                       "the ACP engine itself (zanzibar relations)"],
 }
